@@ -9,9 +9,12 @@
          (refund : p.ptype = .onTimeout ∨ (p.ptype = .onAck ∧ p.ackErr)) (ok : no error recorded) :
          getBal s'.bal p.target p.denom = getBal s.bal p.target p.denom + p.amount
 
-  is FALSE of the current code when `p.fwd.isSome`: `finalize_pays_fulfiller_counterexample`
-  (replayed on the real code: corpus/C05/pfm-forwarded-timeout-fulfilled.ops, monitor
-  `C05/finalize_pays_fulfiller/fulfiller-not-paid-on-finalization/forwarded-packet`).
+  was FALSE of the code before `fixes/fix_pfm_forwarded_order.diff` when `p.fwd.isSome` (finding
+  `C05/finalize_pays_fulfiller/fulfiller-not-paid-on-finalization/forwarded-packet`, replay
+  corpus/C05/pfm-forwarded-timeout-fulfilled.ops).  With the fix a forwarded packet gets no demand
+  order (`forwarded_gets_no_order`), so it cannot be fulfilled; the clause stays stated under
+  `p.fwd = none` — what is NOT yet a theorem is the history-level invariant "a packet with
+  `orig.isSome` (fulfilled) has `fwd = none`", which would discharge that hypothesis.
 -/
 import DymVerif.Props.C05
 namespace DymVerif.C05
@@ -63,7 +66,24 @@ theorem finalize_pays_fulfiller_partial {s s' : St} {k : Bytes} {p : Packet} (h 
       rw [hrel] at hok ⊢
       exact refundRelease_pays_target s p hf ht hok
 
--- ------------------------------------------------------------------ the witness
+-- ------------------------------------------------------------------ forwarded packets get no order
+
+/-- **forwarded_gets_no_order** — (fix `fixes/fix_pfm_forwarded_order.diff`, `IBCMiddleware.isForwarded`) a
+    delayed acknowledgement / timeout of a packet the packet-forward middleware sent creates no demand
+    order: the packet is only stored, so nobody can fulfil it, and its later finalization settles the
+    forward towards the origin chain at nobody's expense. -/
+theorem forwarded_gets_no_order {s0 s' : St} {p : Packet} {refund : Bool} (hf : p.fwd.isSome = true)
+    (h : ackDelay s0 p refund = .ok (some s')) : s'.orders = s0.orders := by
+  unfold ackDelay at h
+  split at h
+  · cases h
+  · have : (refund && p.fwd.isNone) = false := by
+      cases hfw : p.fwd with
+      | none => rw [hfw] at hf; cases hf
+      | some r => simp
+    rw [this] at h
+    cases h
+    rfl
 
 /-- c0: canonical channel of rollapp "r"; c1: a plain chain -/
 def pfmChans : List Chan :=
@@ -73,28 +93,27 @@ def pfmChans : List Chan :=
 def pfmInit : St := initSt 3 100000 ⟨0⟩ ⟨1500000000000000⟩ ⟨0⟩ [114] [115] pfmChans
 def pfmKey : Bytes := rollappPacketKey .pending [114] 15 .onTimeout [99, 48] 1
 /-- 1000 units arrive from the plain chain with a forward memo towards the rollapp; the forwarded packet
-    times out above the finalized height; account 2 fulfils its refund order (price 999, fee 1); the
-    rollapp's states become final -/
+    times out above the finalized height; the rollapp's states become final -/
 def pfmOps : List Op :=
   [ .addState [114] 10,
     .recv 1 1 0 { dref := .foreign, amount := 1000, target := some 0, memo := .forward 0 },
     .addState [114] 10,
-    .timeout 0 1 15,
-    .fulfill 2 pfmKey 1,
-    .finalizeState [114], .finalizeState [114] ]
+    .timeout 0 1 15 ]
 
-/-- the forwarded packet's order is fulfilled by account 2, who pays 999 to the packet-forward
-    intermediate address; the finalization succeeds, records no error, acknowledges the inbound packet
-    with an error, burns the escrowed voucher — and credits the fulfiller nothing -/
-theorem finalize_pays_fulfiller_counterexample :
-    (getPacket (run pfmInit pfmOps) pfmKey).map (fun p => (p.target, p.orig, p.amount, p.fwd)) = some (2, some (pfmAddr 1), 1000, some (1, 1)) ∧
-    getBal (run pfmInit pfmOps).bal 2 2 = 100000 - 999 ∧
-    getBal (run pfmInit pfmOps).bal (pfmAddr 1) 2 = 999 ∧
-    (step (run pfmInit pfmOps) (.finalize 0 [114] 15 .onTimeout [99, 48] 1)).2 = .ok ∧
-    getBal (step (run pfmInit pfmOps) (.finalize 0 [114] 15 .onTimeout [99, 48] 1)).1.bal 2 2 = 100000 - 999 ∧
-    getBal (step (run pfmInit pfmOps) (.finalize 0 [114] 15 .onTimeout [99, 48] 1)).1.bal (escrowAcct 0) 2 = 0 ∧
-    (step (run pfmInit pfmOps) (.finalize 0 [114] 15 .onTimeout [99, 48] 1)).1.acks = [((1, 1), false)] ∧
-    (step (run pfmInit pfmOps) (.finalize 0 [114] 15 .onTimeout [99, 48] 1)).1.packets.map (fun p => (p.status, p.perr)) = [(.finalized, none)] := by
+/-- the history of the recorded finding (corpus/C05/pfm-forwarded-timeout-fulfilled.ops), on the patched
+    code: the timed-out forwarded packet is stored pending WITHOUT a demand order, a fulfilment is
+    refused, and the finalization burns the escrowed voucher and acknowledges the inbound packet with an
+    error — the refund goes back to the origin chain and no third party pays anything.
+    (Before the patch: an order with recipient `pfmAddr 1` was created, account 2 could fulfil it for 999
+    and was credited nothing at finalization — `finalize_pays_fulfiller_counterexample` of the
+    agent-c45x branch, kernel-checked against the model of the unpatched code.) -/
+theorem forwarded_timeout_has_no_order_example :
+    (run pfmInit pfmOps).orders = [] ∧
+    (getPacket (run pfmInit pfmOps) pfmKey).map (fun p => (p.target, p.orig, p.amount, p.fwd)) = some (pfmAddr 1, none, 1000, some (1, 1)) ∧
+    (step (run pfmInit pfmOps) (.fulfill 2 pfmKey 1)).2 = .err .notFound ∧
+    (step (run pfmInit (pfmOps ++ [.finalizeState [114], .finalizeState [114]])) (.finalize 0 [114] 15 .onTimeout [99, 48] 1)).2 = .ok ∧
+    getBal (step (run pfmInit (pfmOps ++ [.finalizeState [114], .finalizeState [114]])) (.finalize 0 [114] 15 .onTimeout [99, 48] 1)).1.bal (escrowAcct 0) 2 = 0 ∧
+    (step (run pfmInit (pfmOps ++ [.finalizeState [114], .finalizeState [114]])) (.finalize 0 [114] 15 .onTimeout [99, 48] 1)).1.acks = [((1, 1), false)] := by
   decide
 
 end DymVerif.C05
